@@ -22,13 +22,13 @@ def _exc():
 
 def dup_tables(fix=None):
     args = [('s1', IntRange(0, 2)), ('s2', IntRange(0, 2)), ('n2', IntRange(0, 1)), ('a1', IntRange(0, 5)), ('a2', IntRange(0, 5)),
-            ('mid', IntRange(0, 2)), ('quoted', 'bool')]
+            ('mid', IntRange(0, 2)), ('quoted', 'bool'), ('same', 'bool')]          # same: the second declaration repeats the first one's body
 
     def build(a):
         def tbl(s, n, al, col, q):
             nm = ('"' + n + '"') if q else n
             return 'Table ' + SCH[s] + nm + ((' as "' + al + '"') if al else '') + ' {\n  ' + col + ' int\n}\n'
-        doc = tbl(a['s1'], 'a', ALIAS[a['a1']], 'c1', False) + FILLER[a['mid']] + tbl(a['s2'], NAMES[a['n2']], ALIAS[a['a2']], 'c2', a['quoted'])
+        doc = tbl(a['s1'], 'a', ALIAS[a['a1']], 'c1', False) + FILLER[a['mid']] + tbl(a['s2'], NAMES[a['n2']], ALIAS[a['a2']], 'c1' if a['same'] else 'c2', a['quoted'])
         full1 = SCHV[a['s1']] + '.a'
         full2 = SCHV[a['s2']] + '.' + NAMES[a['n2']]
         keys = [full1] + ([ALIAS[a['a1']]] if ALIAS[a['a1']] else [])
@@ -61,16 +61,16 @@ def dup_tables(fix=None):
 
 def dup_enums_groups(kind, fix=None):
     """kind: enum | group"""
-    args = [('s1', IntRange(0, 2)), ('s2', IntRange(0, 2)), ('n2', IntRange(0, 1)), ('mid', IntRange(0, 2)), ('quoted', 'bool')]
+    args = [('s1', IntRange(0, 2)), ('s2', IntRange(0, 2)), ('n2', IntRange(0, 1)), ('mid', IntRange(0, 2)), ('quoted', 'bool'), ('same', 'bool')]
 
     def build(a):
         n2 = NAMES[a['n2']]
         nm2 = ('"' + n2 + '"') if a['quoted'] else n2
         if kind == 'enum':
-            doc = ('Enum ' + SCH[a['s1']] + 'a {\n  v\n}\n' + FILLER[a['mid']].replace('Enum e', 'Enum other') + 'Enum ' + SCH[a['s2']] + nm2 + ' {\n  w\n  v\n}\n')
+            doc = ('Enum ' + SCH[a['s1']] + 'a {\n  v\n}\n' + FILLER[a['mid']].replace('Enum e', 'Enum other') + 'Enum ' + SCH[a['s2']] + nm2 + (' {\n  v\n}\n' if a['same'] else ' {\n  w\n  v\n}\n'))
             clash = SCHV[a['s1']] == SCHV[a['s2']] and n2 == 'a'
         else:
-            doc = ('Table t {\n  c int\n}\nTableGroup a {\n  t\n}\n' + FILLER[a['mid']] + 'TableGroup ' + nm2 + ' {\n}\n')
+            doc = ('Table t {\n  c int\n}\nTableGroup a {\n  t\n}\n' + FILLER[a['mid']] + 'TableGroup ' + nm2 + (' {\n  t\n}\n' if a['same'] else ' {\n}\n'))
             clash = n2 == 'a'
         return doc, clash
 
@@ -312,7 +312,8 @@ def instances(tier):
             for s1 in range(3):
                 if quick and s1 == 2:
                     continue
-                add(f"dup_tables/mid{mid}/{'q' if q else 'b'}/s{s1}", 'dup_tables', {'fix': {'mid': mid, 'quoted': q, 's1': s1}}, T1)
+                add(f"dup_tables/mid{mid}/{'q' if q else 'b'}/s{s1}", 'dup_tables', {'fix': {'mid': mid, 'quoted': q, 's1': s1, 'same': False}}, T1)
+    add('dup_tables/same_body', 'dup_tables', {'fix': {'mid': 0, 'a1': 0, 'a2': 0}}, T1)
     for kind in ('enum', 'group'):
         for mid in range(3):
             if quick and mid == 1:
